@@ -164,7 +164,7 @@ class Lib:
             "round": B("round", self.b_round), "bool": B("bool", self.b_bool), "len": B("len", self.b_len),
             "max": B("max", self.b_max), "min": B("min", self.b_min), "getattr": B("getattr", self.b_getattr), "next": B("next", self.b_next),
             "sorted": B("sorted", self.b_sorted), "list": B("list", self.b_list), "tuple": B("tuple", self.b_tuple),
-            "dict": B("dict", self.b_dict), "zip": B("zip", self.b_zip), "set": B("set", self.b_set),
+            "dict": B("dict", self.b_dict), "zip": B("zip", self.b_zip), "set": B("set", self.b_set), "frozenset": B("frozenset", self.b_frozenset),
             "isinstance": B("isinstance", self.b_isinstance), "type": B("type", self.b_type),
             "classmethod": B("classmethod", lambda I, a, k: ClassMethodVal(a[0])),
             "staticmethod": B("staticmethod", lambda I, a, k: StaticMethodVal(a[0])),
@@ -534,6 +534,8 @@ class Lib:
             if name in ("lower", "upper", "rstrip", "strip", "split", "rpartition", "replace", "startswith", "endswith", "join"):
                 return getattr(s, name)(*a)
             if name == "encode":
+                if len(a) > 1 or (a and a[0] not in ("utf-8", "utf8", "UTF-8")):
+                    raise Unsupported("str.encode with an encoding other than utf-8 or an errors argument")
                 return self.bytes_val(I, s.encode())
         if not hasattr(str, name):
             raise RaiseSig(I.make_exc("AttributeError", site=node))
@@ -685,7 +687,7 @@ class Lib:
         v = a[0]
         if isinstance(v, LibObj) and hasattr(v, "length"):
             return v.length(I)
-        if isinstance(v, (str, list, tuple, dict, set)):
+        if isinstance(v, (str, list, tuple, dict, set, frozenset)):
             return len(v)
         if is_sym(v, "str"):
             return Sym(z3.Length(v.term), "int")
@@ -806,6 +808,12 @@ class Lib:
 
     def b_set(self, I, a, k):
         return self.make_set(I, list(self.iterate(I, a[0]))) if a else set()
+
+    def b_frozenset(self, I, a, k):
+        if k or len(a) > 1:
+            raise Unsupported("frozenset arguments")
+        s = self.make_set(I, list(self.iterate(I, a[0]))) if a else set()
+        return frozenset(s) if isinstance(s, set) else s  # (a tuple when an element is symbolic: membership tests only)
 
     def b_dict(self, I, a, k):
         d = {}
